@@ -515,6 +515,11 @@ def _source_list_by_evaluation(ctx, mi, opts, scope, av, call) -> Optional[List[
         args["src"] = src
         for k_ in ("is_submodule",):
             args[k_] = False
+        # the other options take values that collide with parts of the list: the module is named like a file that is not listed first
+        later = [posixpath.splitext(posixpath.basename(x))[0] for x in src.split(";")[1:]]
+        for k_ in ("module_name", "top_module_namespaces", "top_module_namespace"):
+            if k_ in args and later:
+                args[k_] = later[-1]
         try:
             got = slice_eval(scope_fn, call.args[0], {av: args, '__name__': '__main__'}, frozen={av}, budget=4000)
         except (_PathEval.Unknown, _Raised, RecursionError):
